@@ -15,7 +15,9 @@ FUNCTIONS = [
 ]
 BOUNDS = ("Cell grid: shutdown call {tool_off, power_off, coolant_off, emergency_halt(reset=False/"
           "True)} x tool state {off, spin cw/ccw, power constant/dynamic} x coolant {off, mist, "
-          "flood} x bounds table {none, tool-power only, all scalar bounds}. Solver over: tool "
+          "flood} x bounds table {none, tool-power only, all scalar bounds} x the OTHER start API's mode "
+          "left recorded by an earlier on/off through it {no, yes} x how the pre-state is reached "
+          "{installed directly, through public calls (true history)}. Solver over: tool "
           "power p>=0, feed rate, previous halt mode flag, every bound (min<max, any reals incl. "
           "ranges excluding 0). Extra cells: emergency_halt with a SYMBOLIC message of 1-3 code "
           "points (any Unicode) must still give M05, M09, comment, M00|M30.")
@@ -31,7 +33,7 @@ SCALAR_BOUNDS = ["bed-temperature", "chamber-temperature", "hotend-temperature",
                  "tool-power"]
 
 
-def _make(entry, tool, coolant, bmode, reset=False):
+def _make(entry, tool, coolant, bmode, reset=False, stale=None):
     def h(p: Finite, lo: Finite, hi: Finite, halted: bool):
         assume(p >= 0)
         assume(lo < hi)
@@ -47,8 +49,13 @@ def _make(entry, tool, coolant, bmode, reset=False):
         halt = None
         if halted and tool is None and coolant is None:
             halt = "pause"
+        extra = {}
+        if stale == "spin":          # tool_on(ccw) ... power_off() earlier: the spin mode is still recorded
+            extra["stale_spin"] = "ccw"
+        elif stale == "power":       # power_on(dynamic) ... tool_off() earlier
+            extra["stale_power"] = "dynamic"
         pre = mkpre(tool=tool, coolant=coolant, power=p if tool else 0, feed=feed,
-                    bounds=bounds, halt=halt, pos=(1.0, 2.0, 3.0))
+                    bounds=bounds, halt=halt, pos=(1.0, 2.0, 3.0), **extra)
         g, rec = prepare(pre)
         if entry == "tool_off":
             e = attempt(g.tool_off)
@@ -139,5 +146,17 @@ def cells(tier):
                     out.append(Cell(name=name, fn=_make(entry, tool, coolant, bmode, reset),
                                     budget_s=60 if tier == "quick" else 240,
                                     must_reach=(), entry=f"GCodeBuilder.{entry}"))
+                    # the other API's mode left over from an earlier on/off through it
+                    stale = "power" if (tool is None or tool[0] == "spin") else "spin"
+                    if bmode != "all" or tier != "quick":
+                        out.append(Cell(name=name + f"|stale-{stale}-mode",
+                                        fn=_make(entry, tool, coolant, bmode, reset, stale),
+                                        budget_s=60 if tier == "quick" else 240,
+                                        must_reach=(), entry=f"GCodeBuilder.{entry}"))
+                        if tool is None:
+                            out.append(Cell(name=name + "|stale-spin-mode",
+                                            fn=_make(entry, tool, coolant, bmode, reset, "spin"),
+                                            budget_s=60 if tier == "quick" else 240,
+                                            must_reach=(), entry=f"GCodeBuilder.{entry}"))
     out += history_variants([c for c in out if not c.name.startswith(('history', 'real-', 'two-'))])
     return out
